@@ -201,6 +201,13 @@ MarkFirstChild(ts, i) ==
        ELSE IF k <= Len(ts) /\ ts[k].k = "t" THEN SubSeq(ts, 1, k) \o <<E("bm", 0)>> \o SubSeq(ts, k + 1, Len(ts))
        ELSE SubSeq(ts, 1, k - 1) \o <<E("bm", 0)>> \o SubSeq(ts, k, Len(ts))
 
+(* set_reference_mark_end(start, position): the end mark of an existing range (token `old`, 0 if the mark was a single     *)
+(* point so far) is taken away and a new one is placed at the character position - or nothing changes at all when the    *)
+(* position does not exist                                                                                               *)
+MoveEnd(ts, old, pos) ==
+    LET rest == IF old = 0 THEN ts ELSE DeleteAt(ts, old)
+    IN IF pos >= 0 /\ MarkSlotPosition(rest, pos) = 0 THEN ts ELSE MarkAtPosition(rest, pos)
+
 (* strip_tags called ON an inline element (span.remove_spans(), link.strip_tags(...)): when the element's own tag  *)
 (* is stripped the call returns a NEW paragraph holding what was inside (nested tags of that kind stripped too)     *)
 (* followed by the element's tail, and leaves the paragraph alone; otherwise it works in place, inside the element  *)
@@ -255,6 +262,7 @@ ApplyOp(ts, o) ==
       [] o.op = "mark_range"      -> MarkRange(ts, o.a, o.b)
       [] o.op = "mark_content"    -> MarkContent(ts, o.p, o.nth)
       [] o.op = "mark_element"    -> MarkElement(ts, o.i)
+      [] o.op = "move_end"        -> MoveEnd(ts, o.old, o.pos)
       [] o.op = "mark_first_child" -> MarkFirstChild(ts, o.i)
       [] o.op = "strip_tags"      -> StripTags(ts, o.tag, <<>>)
       [] o.op = "delete"          -> DeleteAt(ts, o.i)
